@@ -70,8 +70,14 @@ static bool
 alg_wrap_wrp(const jose_hook_alg_t *alg, jose_cfg_t *cfg, json_t *jwe,
              json_t *rcp, const json_t *jwk, json_t *cek)
 {
-    if (!json_object_get(cek, "k") && !copy(cek, jwk))
+    /* The key is the content key: it cannot join a content key already
+     * fixed by an earlier recipient unless it is that very key. */
+    if (json_object_get(cek, "k")) {
+        if (!json_equal(json_object_get(cek, "k"), json_object_get(jwk, "k")))
+            return false;
+    } else if (!copy(cek, jwk)) {
         return false;
+    }
 
     if (json_object_set_new(rcp, "encrypted_key", json_string("")) < 0)
         return false;
